@@ -201,8 +201,10 @@ def run_check(modname, tier, seed, replay=None):
     if total.paths == 0 or (total.validated == 0 and getattr(mod, "REQUIRE_VALIDATED", True)):
         harness_problems.append("vacuous: %d paths, %d validated" % (total.paths, total.validated))
     missing_goals = [g for g in getattr(mod, "GOALS", {}).get(tier, []) if not total.goals.get(g)]
-    if missing_goals:
+    if missing_goals and not skipped:
         harness_problems.append("coverage goals not reached: %s" % missing_goals)
+    elif missing_goals:
+        print("note: coverage goals not reached before the wall budget cut the run: %s" % missing_goals)
     if harness_problems and status == EXIT_OK:
         status = EXIT_HARNESS
         for h in harness_problems:
@@ -246,6 +248,7 @@ def run_check(modname, tier, seed, replay=None):
             "solver_time_s": round(total.solver_time, 2),
             "nonlinear_terms": total.nonlinear,
             "coverage_goals": total.goals,
+            "coverage_goals_missing": missing_goals,
             "unreproduced_counterexamples": len(total.unreproduced),
             "unreproduced_samples": jsonable(total.unreproduced[:3]),
             "known_findings_seen": {k: len(v) for k, v in known_seen.items()},
